@@ -588,7 +588,8 @@ let usite_of_string s =
   | ["ba"; ops] -> Usage.SBarrier (uops ops)
   | ["bo"; l; r] -> Usage.SBinOp (l = "1", r = "1")
   | ["dc"; e; n] -> Usage.SDefCall (n_of_string e, n_of_string n)
-  | ["as"; t] -> Usage.SAssign (usym_of_string t)
+  | ["as"; t] -> Usage.SAssign (usym_of_string t, true)
+  | ["as"; t; "x"] -> Usage.SAssign (usym_of_string t, false)
   | ["qd"; sc] -> Usage.SQubitDecl (uscope sc)
   | ["gd"; sc] -> Usage.SGateDef (uscope sc)
   | ["dd"; sc] -> Usage.SDefDef (uscope sc)
